@@ -244,6 +244,10 @@ def run_request(ctl: explorer.Ctl, cfg: Dict[str, Any]) -> Dict[str, Any]:
             text = ev(resp)
             if cfg.get("untyped"):
                 text = text.replace("event: message\n", "")     # the default event type applies
+            if cfg.get("serialisation") == "id-first":
+                text = text.split("data: ")[0] + "data: " + json.dumps(resp, ensure_ascii=False, sort_keys=True) + "\n\n"
+            elif cfg.get("serialisation") == "blank-after-brace":
+                text = text.split("data: ")[0] + "data: { " + json.dumps(resp, ensure_ascii=False)[1:] + "\n\n"
             srv.stream.feed(text.encode())
         elif action == "note":
             srv.stream.feed(ev({"jsonrpc": "2.0", "method": "notifications/message", "params": {"d": 1, "t": SEPS + PATHY[1]}}).encode())
@@ -456,8 +460,14 @@ def chunk_stream(variant: str) -> bytes:
     n2 = {"jsonrpc": "2.0", "method": "n/2"} if short else \
         {"jsonrpc": "2.0", "method": "notifications/progress", "params": {"progressToken": "t", "progress": 2,
                                                                           "message": PATHY[1]}}
-    text = e("endpoint", "/messages/?session_id=abc") + e("message", json.dumps(n1, ensure_ascii=False)) + \
-        e("message", json.dumps(r, ensure_ascii=False)) + e("message", json.dumps(n2, ensure_ascii=False))
+    # the same JSON values in other serialisations a server may use: members in another order, blanks after the brace
+    ser = [lambda m: json.dumps(m, ensure_ascii=False),
+           lambda m: json.dumps(m, ensure_ascii=False, sort_keys=True),                       # "id" before "jsonrpc"
+           lambda m: "{ " + json.dumps(m, ensure_ascii=False, separators=(" , ", " : "))[1:-1] + " }"]
+    if "long" not in variant:
+        ser = [ser[0]] * 3
+    text = e("endpoint", "/messages/?session_id=abc") + e("message", ser[0](n1)) + \
+        e("message", ser[1](r)) + e("message", ser[2](n2))
     return text.encode("utf-8"), [n1, r, n2]
 
 
@@ -1017,6 +1027,9 @@ def configs_for(tier: str):
             req.append({"mode": mode, "id": idk, "rich": mode != "202+event+note" or tier == "thorough"})
             if mode == "202+event":
                 req.append({"mode": mode, "id": idk, "rich": False, "untyped": True})
+                for form in ("id-first", "blank-after-brace"):
+                    req.append({"mode": mode, "id": idk, "rich": False, "untyped": True, "serialisation": form})
+                    req.append({"mode": mode, "id": idk, "rich": False, "serialisation": form})
     chunks = []
     for variant in ("long-lf", "long-crlf", "long-lf-untyped", "long-crlf-untyped"):
         data, _ = chunk_stream(variant)
@@ -1091,7 +1104,8 @@ def run(tier: str, only=None) -> core.Result:
         "x ids {string, digit string, integer} x every order of {POST completes, event arrives, notification} x every placement from the "
         "time menu (relative to the transport's own timers); chunking: every single cut of the long LF and CRLF streams, pairs of cuts on "
         "the short ones (thorough: all pairs, byte-at-a-time), payloads with raw U+2028 / U+2029 / U+0085 and endpoint-looking texts "
-        "(/messages/, /mcp, http://x/mcp?a=1) in typed and untyped events; two connections alive at once (own hosts, own event "
+        "(/messages/, /mcp, http://x/mcp?a=1) in typed and untyped events, JSON serialised with members in another order ('id' first) and with blanks after the "
+        "opening brace; two connections alive at once (own hosts, own event "
         "streams), one request pending on each with the same / different ids: every order of {202 for X, 202 for Y, answer event "
         "on X, answer event on Y}; X leaves while Y is pending and Y is then answered / stays silent until the timeout; both silent "
         "- each connection must read exactly what it reads alone (its own connection-specific payload or one timeout error); big data "
